@@ -1,4 +1,4 @@
-package props
+package gen
 
 import (
 	"math"
@@ -21,7 +21,7 @@ func MathOracles(r *run.Runner) {
 	r.Oracles["atan"] = f1(math.Atan)
 }
 
-func ulp(x float64, n int) float64 {
+func Ulp(x float64, n int) float64 {
 	for ; n > 0; n-- {
 		x = math.Nextafter(x, math.Inf(1))
 	}
@@ -38,7 +38,7 @@ func (g *Gen) Lon() float64 {
 	case 1: // a tile boundary of some zoom, +- a few ulps
 		h := g.Int63n(36)
 		k := g.Int63n(int64(1)<<uint(h) + 1)
-		return ulp(float64(k)*360/math.Pow(2, float64(h))-180, g.Intn(5)-2)
+		return Ulp(float64(k)*360/math.Pow(2, float64(h))-180, g.Intn(5)-2)
 	case 2:
 		return g.PickF(1e-20, -1e-20, 5e-324, -5e-324, 1e-300, -1e-9)
 	case 3: // just inside a boundary of a fine zoom
@@ -78,7 +78,7 @@ func (g *Gen) Alt() float64 {
 	case 1: // exact multiple of a cell size, +- ulps
 		v := g.Int63n(36)
 		k := g.VIndex(v)
-		return ulp(float64(k)*math.Pow(2, 25-float64(v)), g.Intn(5)-2)
+		return Ulp(float64(k)*math.Pow(2, 25-float64(v)), g.Intn(5)-2)
 	case 2:
 		return g.PickF(1e-20, -1e-20, -1e-9, 1e-9, -0.001, 0.001)
 	case 3:
@@ -103,7 +103,7 @@ func StoredPoint(lon, lat, alt float64) (*object.Point, w.Val, bool) {
 	return p, w.L(w.F(p.Lon()), w.F(p.Lat()), w.F(p.Alt())), true
 }
 
-func pointsFromVal(v w.Val) []*object.Point {
+func PointsFromVal(v w.Val) []*object.Point {
 	var out []*object.Point
 	for _, e := range w.AsList(v) {
 		if _, ok := e.(w.Nil); ok {
@@ -113,22 +113,22 @@ func pointsFromVal(v w.Val) []*object.Point {
 		l := w.AsList(e)
 		// rebuild the stored point exactly: lon/alt are stored unchanged; lat is already a stored (truncated) value, and
 		// storing a stored value again may move it (SetLat is not idempotent), so set it through a raw pointer copy
-		p := rawPoint(w.AsFlt(l[0]), w.AsFlt(l[1]), w.AsFlt(l[2]))
+		p := RawPoint(w.AsFlt(l[0]), w.AsFlt(l[1]), w.AsFlt(l[2]))
 		out = append(out, p)
 	}
 	return out
 }
 
-func pointVal(p *object.Point) w.Val {
+func PointVal(p *object.Point) w.Val {
 	if p == nil {
 		return w.Nil{}
 	}
 	return w.L(w.F(p.Lon()), w.F(p.Lat()), w.F(p.Alt()))
 }
-func pointsVal(ps []*object.Point) w.Val {
+func PointsVal(ps []*object.Point) w.Val {
 	l := make(w.List, len(ps))
 	for i, p := range ps {
-		l[i] = pointVal(p)
+		l[i] = PointVal(p)
 	}
 	return l
 }
